@@ -21,4 +21,5 @@ run_one() {
   rm -rf "$T"
 }
 export -f run_one; export PROPS
-( for d in seeded/*/; do echo "$(basename $d) $d/patch.diff"; done; for f in mutants/revert/*.diff; do echo "revert-$(basename $f | cut -c1-2) $f"; done ) | xargs -P 6 -L 1 bash -c 'run_one $0 $1'
+# optional arguments: names to run (default: all)
+( for d in seeded/*/; do echo "$(basename $d) $d/patch.diff"; done; for f in mutants/revert/*.diff; do echo "revert-$(basename $f | cut -c1-2) $f"; done ) | { if [ $# -gt 0 ]; then grep -E "^($(echo "$@" | tr ' ' '|')) "; else cat; fi; } | xargs -P 6 -L 1 bash -c 'run_one $0 $1'
